@@ -36,7 +36,7 @@ ASSUMPTIONS = [
 SHARDS = {"quick": 16, "thorough": 16}
 TIMEOUT = {"quick": 900, "thorough": 7200}
 MIN_CASES = {"quick": 20000, "thorough": 70000}
-REQUIRED_COUNTERS = ["ble_requests_reassembled", "ble_encrypted_requests", "ble_responses_reassembled", "ble_bad_fragments_rejected", "coap_batches_decoded", "coap_items_attributed", "coap_request_batches", "coap_long_sessions"]
+REQUIRED_COUNTERS = ["ble_requests_reassembled", "ble_encrypted_requests", "ble_responses_reassembled", "ble_bad_fragments_rejected", "coap_batches_decoded", "coap_items_attributed", "coap_request_batches", "coap_long_sessions", "coap_overlap_rounds"]
 
 
 def nonce(counter: int) -> bytes:
@@ -391,6 +391,89 @@ async def coap_long_session(ctx, k: int) -> None:
         fac.remove()
 
 
+async def coap_overlap_session(ctx, k: int) -> None:
+    """Operations that OVERLAP on one CoAP session: a batch is in flight (the accessory takes its time), a second caller queues
+    behind it and gives up before its turn, the caller of the first mutates the list it passed in; afterwards the session
+    carries on. Every batch the accessory receives authenticates at the accessory's own counter (ground truth: its decrypt
+    error count), and every result is attributed to the characteristic that was requested at that position AT CALL TIME."""
+    from aiohomekit.controller.coap.connection import CoAPHomeKitConnection
+
+    from vf import sim_coap
+
+    rng = ctx.grng("C17.coap-overlap", k)
+    acc = sim_coap.CoapAccessory(rng)
+    fac = sim_coap.ContextFactory(acc).install()
+    replay = {"t": "coap-overlap", "k": k}
+    ctx.case("coap-overlap", k, sample={"transport": "coap", "part": "overlapping batches on one session"}, kind="coap-overlap")
+    gate = {"ev": None}
+    orig_handle = acc.handle
+
+    async def handle(msg):
+        if "/".join(msg.opt.uri_path) == "" and gate["ev"] is not None:
+            await gate["ev"].wait()
+        return await orig_handle(msg)
+
+    try:
+        conn = CoAPHomeKitConnection(None, "fd00::1", 5683)
+        await asyncio.wait_for(conn.connect(acc.pairing_data()), 60)
+        for c in fac.created:
+            c.handler = handle
+        readable = [10, 11, 13, 14, 3]
+        base = await asyncio.wait_for(conn.read_characteristics([(1, i) for i in readable]), 60)
+        if any("value" not in base.get((1, i), {}) for i in readable):
+            ctx.mark_inconclusive(f"C17 CoAP overlap: baseline read incomplete: {base!r}")
+            return
+        for rnd in range(6):
+            asked = [(1, i) for i in rng.sample(readable, rng.randint(2, 4))]
+            mine = list(asked)  # the caller's own list object
+            gate["ev"] = asyncio.Event()
+            t1 = asyncio.ensure_future(conn.read_characteristics(mine))
+            for _ in range(5):
+                await asyncio.sleep(0)
+            variant = (k + rnd) % 3
+            t2 = None
+            if variant in (0, 2):
+                # a second caller queues behind the first and gives up before its turn
+                t2 = asyncio.ensure_future(conn.read_characteristics([(1, rng.choice(readable))]))
+                for _ in range(5):
+                    await asyncio.sleep(0)
+                t2.cancel()
+                ctx.count("coap_queued_callers_cancelled")
+            if variant in (1, 2):
+                # the first caller re-uses its list for the next poll while the batch is in flight
+                rng.choice([lambda: mine.reverse(), lambda: mine.pop(0), lambda: mine.insert(0, (1, 3)), lambda: mine.clear()])()
+                ctx.count("coap_caller_lists_mutated_in_flight")
+            gate["ev"].set()
+            gate["ev"] = None
+            try:
+                res = await asyncio.wait_for(t1, 60)
+            except Exception as ex:  # noqa: BLE001
+                ctx.violation(f"coap-overlap-read-raises-{type(ex).__name__}", f"round {rnd} variant {variant}: the batch in flight raised {ex!r}", replay)
+                return
+            if t2 is not None:
+                try:
+                    await t2
+                except BaseException:  # noqa: BLE001
+                    pass
+            want = {key: base[key]["value"] for key in asked}
+            got = {key: res.get(key, {}).get("value") for key in asked}
+            if got != want or set(res) != set(asked):
+                ctx.violation("coap-item-result-wrong-or-shifted", f"overlap round {rnd} variant {variant}: requested {asked} (list later changed to {mine}); the accessory answered every item OK; result {res!r}, expected values {want!r}", replay)
+                return
+            # the session carries on
+            try:
+                nxt = await asyncio.wait_for(conn.read_characteristics([(1, 11), (1, 14)]), 60)
+            except Exception as ex:  # noqa: BLE001
+                ctx.violation(f"coap-session-read-raises-{type(ex).__name__}", f"overlap round {rnd} variant {variant}: the NEXT batch failed: {ex!r} (accessory decrypt errors: {acc.decrypt_errors})", replay)
+                return
+            if acc.decrypt_errors or any("value" not in nxt.get(key, {}) for key in ((1, 11), (1, 14))):
+                ctx.violation("coap-request-stream-rejected-by-accessory", f"overlap round {rnd} variant {variant}: accessory decrypt errors {acc.decrypt_errors}, next batch {nxt!r}", replay)
+                return
+            ctx.count("coap_overlap_rounds")
+    finally:
+        fac.remove()
+
+
 def coap_part(ctx) -> None:
     idx = 0
     for n in range(1, 5):
@@ -427,6 +510,7 @@ def run(ctx) -> None:
         for k in range(ctx.pick(2, 16)):
             if ctx.mine(k):
                 await coap_long_session(ctx, k)
+                await coap_overlap_session(ctx, k)
 
     asyncio.run(main())
     coap_part(ctx)
@@ -441,6 +525,8 @@ def replay(ctx, d) -> None:
         coap_batch(ctx, tuple(d["outcomes"]), d["blens"], d["seed"])
     elif d["t"] == "coap-session":
         asyncio.run(coap_long_session(ctx, d["k"]))
+    elif d.get("t") == "coap-overlap":
+        asyncio.run(coap_overlap_session(ctx, d["k"]))
     else:
         ctx.case("replay")
         coap_requests(ctx, d["n"], d["seed"])
